@@ -72,12 +72,70 @@ func footprint(r *ev.Run) {
 	}
 }
 
+// multiRecord: names whose HTTPS RRset has several records (out of priority order; alias-mode record in the middle):
+// two lookups within the TTL and one after it give the same content, none panics, and nothing handed out earlier changes.
+func multiRecord(r *ev.Run) {
+	srv := &dohmem.Server{}
+	dns.VerifRoundTripper = srv
+	clock := time.Unix(1000, 0)
+	restore := ech.VerifSetTimeNow(func() time.Time { return clock })
+	defer restore()
+	srv.Zone = MultiZone(0)
+	show := func(rr ech.ResolveResult) string {
+		var b strings.Builder
+		for _, h := range rr.HTTPS {
+			fmt.Fprintf(&b, "prio=%d target=%q alpn=%q ech=%x|", h.Priority, h.Target, h.ALPN, h.ECH)
+		}
+		return b.String() + fmt.Sprint(rr.Address)
+	}
+	for _, name := range []string{"n3.example", "n4.example"} {
+		for _, gap := range []time.Duration{0, time.Second, 3 * time.Second} { // within the TTL (2 s) twice, then after it
+			res, _ := ech.NewResolver("https://doh.test/dns-query")
+			var outs []string
+			var q []int
+			func() {
+				defer func() {
+					if p := recover(); p != nil {
+						r.Violation("multi-record:panic", fmt.Sprintf("Resolve(%q) number %d (gap %v) panicked: %v", name, len(outs)+1, gap, p), map[string]any{"name": name, "gap": gap.String()})
+					}
+				}()
+				for i := 0; i < 3; i++ {
+					before := len(srv.Queries())
+					rr, err := res.Resolve(context.Background(), name)
+					if err != nil {
+						r.Violation("multi-record:resolve-failed", fmt.Sprintf("Resolve(%q) number %d: %v", name, i+1, err), nil)
+						return
+					}
+					for range rr.Targets("tcp") {
+					}
+					outs = append(outs, show(rr))
+					q = append(q, len(srv.Queries())-before)
+					clock = clock.Add(gap)
+				}
+			}()
+			for i := 1; i < len(outs); i++ {
+				if outs[i] != outs[0] {
+					r.Violation("multi-record:repeated-lookup-differs", fmt.Sprintf("Resolve(%q) number %d (served %s) returns\n %s\nthe first one returned\n %s", name, i+1, map[bool]string{true: "from the cache", false: "by new queries"}[q[i] == 0], outs[i], outs[0]), map[string]any{"name": name, "gap": gap.String()})
+					break
+				}
+			}
+			if len(outs) == 3 && gap < 2*time.Second && (q[1] != 0 || q[2] != 0) && gap == 0 {
+				r.Violation("multi-record:query-within-ttl", fmt.Sprintf("lookups 2 and 3 of %q at the same instant sent %d and %d upstream queries", name, q[1], q[2]), nil)
+			}
+			if name == "n3.example" && len(outs) > 0 && !strings.HasPrefix(outs[0], "prio=1") {
+				r.Violation("multi-record:not-ordered", "service-mode records not ordered by priority: "+outs[0], nil)
+			}
+			r.Eval(fmt.Sprintf("multi:%s:%v", name, gap), fmt.Sprintf("multi-record RRset: %d lookups agree", len(outs)))
+		}
+	}
+}
+
 func Run(r *ev.Run) {
 	depth := 6
 	if r.Thorough() {
 		depth = 8
 	}
-	r.Rule(fmt.Sprintf("E4 histories: EVERY sequence of length %d (hence all shorter ones as prefixes) over the 10-event alphabet {resolve(n1), resolve(n2), advance 1s/2s/5s/300s, zone->next version (3 versions whose answers differ in content and carry TTL vectors [5],[2,5],[5,2],[0],[0,5],[1],[2,2], CNAME+A, CNAME-only, empty), toggle upstream SERVFAIL, toggle upstream HTTP 400, toggle upstream RCODE 9 (a failure code without a named error)} replayed on a fresh Resolver with a virtual clock and an in-memory DoH responder, a map-based cache model stepped alongside: per call the model predicts for each key (name,type) whether an upstream query must / must not be sent and which zone version the returned content may come from; plus the deterministic write-footprint oracle on results sharing cached records; interleavings are explored by the scheduler-based part (see evidence key interleavings). distinct = distinct histories", depth))
+	r.Rule(fmt.Sprintf("E4 histories: EVERY sequence of length %d (hence all shorter ones as prefixes) over the 10-event alphabet {resolve(n1), resolve(n2), advance 1s/2s/5s/300s, zone->next version (3 versions whose answers differ in content and carry TTL vectors [5],[2,5],[5,2],[0],[0,5],[1],[2,2],[1000],[1000,400], CNAME+A, CNAME-only, empty), toggle upstream SERVFAIL, toggle upstream HTTP 400, toggle upstream RCODE 9 (a failure code without a named error)} replayed on a fresh Resolver with a virtual clock and an in-memory DoH responder, a map-based cache model stepped alongside: per call the model predicts for each key (name,type) whether an upstream query must / must not be sent and which zone version the returned content may come from; plus the deterministic write-footprint oracle on results sharing cached records and repeated lookups of names whose HTTPS RRset has several records (out of priority order / an alias-mode record in the middle); interleavings are explored by the scheduler-based part (see evidence key interleavings). distinct = distinct histories", depth))
 	r.Assume("responses without any record have no TTL: the property sets no bound for them (the code keeps them 300 s); either a query or a cache hit is accepted for such keys",
 		"clock and DoH transport are owned through the verif hooks; 5xx upstream failures are not used because retryablehttp would back off in real time",
 		"plain-memory data races are outside a cooperative scheduler's sight: the write-footprint oracle covers writes by operations that must be read-only")
@@ -103,6 +161,7 @@ func Run(r *ev.Run) {
 		r.Cap(fmt.Sprintf("workers replayed %d of %d histories", done, total))
 	}
 	footprint(r)
+	multiRecord(r)
 	interleavings(r)
 	if os.Getenv("VERIF_RACE_PASS") != "0" {
 		racePass(r) // supplementary and sampled; reported separately, never counted as exploration
